@@ -281,7 +281,7 @@ Section Wiring.
         pose proof (get_all_owners _ _ _ _ (g_inv st Hg) E1) as Hown.
         assert (Hcr1 : creating (reg st1) = h :: cr) by congruence.
         (* the holder's fields are untouched by the nested creations *)
-        destruct (get_all_life s rec Hlife (fun m => m = h) _ _ _ _ ltac:(intros m ->; exact Hcached) E1) as [Hfr _].
+        destruct (get_all_life full_block s rec Hlife (fun m => m = h) _ _ _ _ ltac:(intros m ->; exact Hcached) E1) as [Hfr _].
         destruct (Hfr h eq_refl) as [_ [Hfh _]].
         destruct (inject vt s st1 h k p vs) as [st2|k2 st2] eqn:E2; [|discriminate].
         assert (Hvs1 : filter (fun v => negb (is_self h v)) vs = vs) by (apply nonself_all; rewrite Hown; exact Hnl).
